@@ -18,6 +18,7 @@ type Gen struct {
 	epochN       int
 	touched      map[string]Sort
 	havocAllSeen bool
+	replayVals   []NamedTerm // parameter values requested with safety obligations (see AutoReplay)
 	escaped      map[string]bool // local cells whose address escaped into an interface value
 	noCallN      int
 	dryHavocs    []*Epoch // havoc-all epochs of the dry run in progress
